@@ -401,3 +401,57 @@ func idrText(n *idr.Node) string {
 	}
 	return s
 }
+
+func zzCountNodes(n *idr.Node) int {
+	k := 1
+	for c := n.FirstChild; c != nil; c = c.NextSibling {
+		k += zzCountNodes(c)
+	}
+	return k
+}
+
+// C17Edi: repeated target segments (some filtered out by the FINAL_OUTPUT xpath, evaluated
+// by the real xpath engine): what stays reachable from the reader's root after each
+// delivered-and-released record does not grow.
+func C17Edi() {
+	N := zz.Param("N", 3)
+	decl := &FileDecl{SegDelim: "~", ElemDelim: "*", SegDecls: []*SegDecl{
+		{Name: "H", Elems: []Elem{{Name: "h", Index: 1}}},
+		{Name: "G", Type: zzStrPtr(segTypeGroup), IsTarget: true, Min: zzIntPtr(0), Max: zzIntPtr(-1), Children: []*SegDecl{
+			{Name: "S", Elems: []Elem{{Name: "e", Index: 1}}},
+			{Name: "D", Min: zzIntPtr(0), Elems: []Elem{{Name: "d", Index: 1}}},
+		}},
+	}}
+	zz.Assume((&ediValidateCtx{}).validateFileDecl(decl) == nil)
+	input := []byte("H*0~")
+	for i := 0; i < N; i++ {
+		v := zz.NondetBytesN("v", 1)
+		zz.Assume(zz.ByteIn(v[0], "12"))
+		input = append(input, 'S', '*')
+		input = append(input, v...)
+		input = append(input, '~', 'D', '*', 'x', '~')
+	}
+	filtered := zz.NondetBool("filter")
+	xp := ""
+	if filtered {
+		xp = ".[S/e='1']"
+	}
+	r, err := NewReader("in", &zzChunkReader{data: input, failAt: -1}, decl, xp)
+	zz.Assume(err == nil)
+	first := -1
+	for i := 0; i < N+1; i++ {
+		n, err := r.Read()
+		if err != nil {
+			zz.Cover("eof")
+			zz.Assert(err == io.EOF, "well-formed input ends with EOF")
+			return
+		}
+		zz.Cover("record")
+		r.Release(n)
+		size := zzCountNodes(r.stack[0].segNode)
+		if first < 0 {
+			first = size
+		}
+		zz.Assert(size <= first, "retained tree does not grow with the number of records delivered or filtered out")
+	}
+}
